@@ -9,10 +9,18 @@ Inductive reason : Type := RDotDot | RSymlink | RResolve | RExt.
 Inductive verdict : Type := VOk | VRefuse (r : reason).
 
 (* ---- configuration of one validator (all fields from the translator) ---- *)
-Record vcfg : Type := mkcfg { v_kinds : list N; v_allowed : list str; v_depth : N; v_prefix : str }.
-Definition cfg_write := mkcfg (map fst paths_checks_write) paths_allowed_write paths_carve_depth_write paths_carve_prefix_write.
-Definition cfg_validate := mkcfg (map fst paths_checks_validate) paths_allowed_validate paths_carve_depth_validate paths_carve_prefix_validate.
-Definition cfg_fileops := mkcfg (map fst paths_checks_fileops) paths_allowed_fileops paths_carve_depth_fileops paths_carve_prefix_fileops.
+(* v_req_exists: the link test of the walk is `current.exists() and current.is_symlink()` (true: the test of the
+   source before repo fix 039cc0c, blind to links that cannot be stat'ed) or `current.is_symlink()` (false: lstat
+   only).  The translator reads WHICH one the source uses; the model follows it; the theorems about symbolic
+   links are for configurations with the lstat-only test (`cfg_wf`), proved of the three generated ones in
+   Path/PathPins.v -- reverting the fix flips the generated booleans and breaks those proofs. *)
+Record vcfg : Type := mkcfg { v_kinds : list N; v_allowed : list str; v_depth : N; v_prefix : str; v_req_exists : bool }.
+Definition cfg_write := mkcfg (map fst paths_checks_write) paths_allowed_write paths_carve_depth_write paths_carve_prefix_write
+                              paths_symlink_requires_exists_write.
+Definition cfg_validate := mkcfg (map fst paths_checks_validate) paths_allowed_validate paths_carve_depth_validate paths_carve_prefix_validate
+                                 paths_symlink_requires_exists_validate.
+Definition cfg_fileops := mkcfg (map fst paths_checks_fileops) paths_allowed_fileops paths_carve_depth_fileops paths_carve_prefix_fileops
+                                paths_symlink_requires_exists_fileops.
 
 (* ---- check 1: any(part == ".." for part in path.parts) ---- *)
 Definition check_dotdot (pp : ppath) : verdict :=
@@ -25,20 +33,23 @@ Definition render_abs (r : path) : str := c_slash :: join [c_slash] r.
 Definition carve_ok (cfg : vcfg) (q r : path) : bool :=
   (N.of_nat (length q) + 1 <=? v_depth cfg) && prefixb (v_prefix cfg) (render_abs r).
 
+(* the link test of the source: `p.is_symlink()` alone, or guarded by `p.exists() and ...` (short-circuit `and`) *)
+Definition link_test (req_exists : bool) (fs : node) (q : path) : ex3 :=
+  if req_exists then match p_exists fs q with ExTrue => p_lstat_link fs q | r => r end
+  else p_lstat_link fs q.
+
 Fixpoint walk (cfg : vcfg) (fs : node) (prefixes : list path) : verdict :=
   match prefixes with
   | [] => VOk
   | q :: qs =>
-      match p_exists fs q with                      (* current.exists() and current.is_symlink() *)
+      match link_test (v_req_exists cfg) fs q with
       | ExRaise => VRefuse RResolve                 (* OSError other than ENOENT/ENOTDIR/ELOOP -> except Exception *)
       | ExFalse => walk cfg fs qs
       | ExTrue =>
-          if p_is_symlink fs q then
-            match resolve fs q with                 (* resolved_target = current.resolve() *)
-            | ResErr => VRefuse RResolve
-            | ResOk r => if carve_ok cfg q r then walk cfg fs qs else VRefuse RSymlink
-            end
-          else walk cfg fs qs
+          match resolve fs q with                   (* resolved_target = current.resolve() *)
+          | ResErr => VRefuse RResolve
+          | ResOk r => if carve_ok cfg q r then walk cfg fs qs else VRefuse RSymlink
+          end
       end
   end.
 
@@ -74,38 +85,18 @@ Definition validate_fileops := validate_path cfg_fileops.     (* file_ops.valida
 
 Definition abs_tail (cwd : path) (s : str) : path := ptail (pabsolute cwd (pparse s)).
 
-(* the late re-check before writing: `path_obj.exists() and path_obj.is_symlink()` *)
-Definition late_recheck (fs : node) (cwd : path) (s : str) : bool :=
-  match p_exists fs (abs_tail cwd s) with ExTrue => p_is_symlink fs (abs_tail cwd s) | _ => false end.
+(* the late re-check before writing: `if <link test on path_obj>: return error`; an OSError of the test
+   (ENAMETOOLONG) leaves through the enclosing handler, which is a refusal of the write as well *)
+Definition late_recheck_gen (req_exists : bool) (fs : node) (cwd : path) (s : str) : ex3 :=
+  link_test req_exists fs (abs_tail cwd s).
+Definition late_recheck_write := late_recheck_gen paths_late_requires_exists_write.       (* write block of WriteTool.execute *)
+Definition late_recheck_fileops := late_recheck_gen paths_late_requires_exists_fileops.   (* atomic_write_octave step 2 *)
 
-(* a well-formed configuration: the three checks are all present, extensions are non-empty *)
+(* a well-formed configuration: the three checks are all present, extensions are non-empty, and the link test
+   of the walk is the lstat-based one *)
 Definition cfg_wf (cfg : vcfg) : bool :=
   existsb (N.eqb 1) (v_kinds cfg) && existsb (N.eqb 2) (v_kinds cfg) && existsb (N.eqb 3) (v_kinds cfg)
-  && forallb (fun e => negb (is_nil e)) (v_allowed cfg).
-
-Lemma cfg_write_wf : cfg_wf cfg_write = true. Proof. vm_compute. reflexivity. Qed.
-Lemma cfg_validate_wf : cfg_wf cfg_validate = true. Proof. vm_compute. reflexivity. Qed.
-Lemma cfg_fileops_wf : cfg_wf cfg_fileops = true. Proof. vm_compute. reflexivity. Qed.
-
-(* pins: the orders / tests / constants the model was written against *)
-Lemma pin_order_write : v_kinds cfg_write = [1; 2; 3]. Proof. reflexivity. Qed.
-Lemma pin_order_validate : v_kinds cfg_validate = [2; 1; 3]. Proof. reflexivity. Qed.
-Lemma pin_order_fileops : v_kinds cfg_fileops = [1; 2; 3]. Proof. reflexivity. Qed.
-Definition t_inner : str := [99;117;114;114;101;110;116;46;101;120;105;115;116;115;40;41;32;97;110;100;32;99;117;114;114;101;110;116;46;105;115;95;115;121;109;108;105;110;107;40;41].
-Definition t_late : str := [112;97;116;104;95;111;98;106;46;101;120;105;115;116;115;40;41;32;97;110;100;32;112;97;116;104;95;111;98;106;46;105;115;95;115;121;109;108;105;110;107;40;41].
-Lemma pin_inner_tests :
-  paths_symlink_inner_write = t_inner /\ paths_symlink_inner_validate = t_inner /\ paths_symlink_inner_fileops = t_inner
-  /\ paths_late_recheck_write = t_late /\ paths_late_recheck_fileops = t_late.
-Proof. repeat split; reflexivity. Qed.
-Lemma pin_carve :
-  (v_depth cfg_write, v_prefix cfg_write) = (2, [47;112;114;105;118;97;116;101;47]) /\
-  (v_depth cfg_validate, v_prefix cfg_validate) = (2, [47;112;114;105;118;97;116;101;47]) /\
-  (v_depth cfg_fileops, v_prefix cfg_fileops) = (2, [47;112;114;105;118;97;116;101;47]).
-Proof. repeat split; reflexivity. Qed.
-Lemma pin_allowed :
-  v_allowed cfg_write = [[46;109;100]; [46;111;99;116;46;109;100]; [46;111;99;116;97;118;101]] /\
-  v_allowed cfg_validate = v_allowed cfg_write /\ v_allowed cfg_fileops = v_allowed cfg_write.
-Proof. repeat split; reflexivity. Qed.
+  && forallb (fun e => negb (is_nil e)) (v_allowed cfg) && negb (v_req_exists cfg).
 
 (* ---- generic facts ---- *)
 Lemma existsb_eqb_In k l : existsb (N.eqb k) l = true -> In k l.
@@ -119,9 +110,11 @@ Proof.
 Qed.
 
 Lemma cfg_wf_parts cfg : cfg_wf cfg = true ->
-  In 1 (v_kinds cfg) /\ In 2 (v_kinds cfg) /\ In 3 (v_kinds cfg) /\ forallb (fun e => negb (is_nil e)) (v_allowed cfg) = true.
+  In 1 (v_kinds cfg) /\ In 2 (v_kinds cfg) /\ In 3 (v_kinds cfg) /\ forallb (fun e => negb (is_nil e)) (v_allowed cfg) = true
+  /\ v_req_exists cfg = false.
 Proof.
-  unfold cfg_wf. intro H. apply andb_true_iff in H as [H H4]. apply andb_true_iff in H as [H H3]. apply andb_true_iff in H as [H1 H2].
+  unfold cfg_wf. intro H. apply andb_true_iff in H as [H H5]. apply andb_true_iff in H as [H H4].
+  apply andb_true_iff in H as [H H3]. apply andb_true_iff in H as [H1 H2]. apply negb_true_iff in H5.
   repeat split; try apply existsb_eqb_In; assumption.
 Qed.
 
@@ -142,36 +135,40 @@ Theorem accepted_ext cfg fs cwd s : cfg_wf cfg = true ->
   validate_path cfg fs cwd s = VOk ->
   exists stem e, stem <> [] /\ In e (v_allowed cfg) /\ pname (pparse s) = stem ++ e.
 Proof.
-  intros W H. apply cfg_wf_parts in W as (_ & _ & W3 & Wne).
+  intros W H. apply cfg_wf_parts in W as (_ & _ & W3 & Wne & _).
   pose proof (run_checks_all _ _ _ _ _ 3 H W3) as K. unfold run_check in K. cbn in K. unfold check_ext in K.
   destruct (ext_ok (v_allowed cfg) (pname (pparse s))) eqn:X; [|discriminate].
   exact (ext_ok_sound _ _ Wne X).
 Qed.
 
 (* ---- T3: symlinks ---- *)
-Lemma walk_sound cfg fs : forall prefixes, walk cfg fs prefixes = VOk ->
+Lemma p_is_symlink_lstat fs q : p_is_symlink fs q = true -> p_lstat_link fs q = ExTrue.
+Proof. unfold p_is_symlink. destruct (p_lstat_link fs q); [reflexivity|discriminate|discriminate]. Qed.
+
+(* with the lstat-only test, a walk that accepts has passed every link -- dangling or not -- through the carve-out *)
+Lemma walk_sound cfg fs : v_req_exists cfg = false -> forall prefixes, walk cfg fs prefixes = VOk ->
   forall q, In q prefixes -> p_is_symlink fs q = true ->
-    p_exists fs q = ExFalse \/ (exists r, resolve fs q = ResOk r /\ carve_ok cfg q r = true).
+    exists r, resolve fs q = ResOk r /\ carve_ok cfg q r = true.
 Proof.
-  induction prefixes as [|x xs IH]; intros H q Hq Hs; [destruct Hq|]. cbn in H.
+  intro Hreq. induction prefixes as [|x xs IH]; intros H q Hq Hs; [destruct Hq|]. cbn [walk] in H.
+  rewrite Hreq in H. cbn [link_test] in H.
   destruct Hq as [->|Hq].
-  - destruct (p_exists fs q); [|left; reflexivity|discriminate]. rewrite Hs in H.
+  - rewrite (p_is_symlink_lstat _ _ Hs) in H.
     destruct (resolve fs q) as [r|]; [|discriminate]. destruct (carve_ok cfg q r) eqn:C; [|discriminate].
-    right. exists r. split; reflexivity || exact C.
-  - destruct (p_exists fs x); [|exact (IH H q Hq Hs)|discriminate].
-    destruct (p_is_symlink fs x); [|exact (IH H q Hq Hs)].
+    exists r. split; reflexivity || exact C.
+  - destruct (p_lstat_link fs x); [|exact (IH H q Hq Hs)|discriminate].
     destruct (resolve fs x) as [r|]; [|discriminate]. destruct (carve_ok cfg x r); [|discriminate]. exact (IH H q Hq Hs).
 Qed.
 
-(* Every component of an accepted path that the kernel reports as a symbolic link is either one that cannot be
-   stat'ed (dangling / ENOTDIR / more than 40 links: `exists()` is False -- finding C19-unstattable-symlink) or
-   falls under the code's system-symlink carve-out (first component, resolving below /private/). *)
+(* Every component of an accepted path that is a symbolic link -- as lstat sees it: dangling links, links whose
+   target cannot be stat'ed (ENOTDIR, more than 40 links) and links to existing files alike -- falls under the
+   code's system-symlink carve-out (symlink_depth <= 2, i.e. the FIRST component, resolving below /private/). *)
 Theorem accepted_no_symlink cfg fs cwd s : cfg_wf cfg = true ->
   validate_path cfg fs cwd s = VOk ->
   forall q, In q (inits1 (abs_tail cwd s)) -> p_is_symlink fs q = true ->
-    p_exists fs q = ExFalse \/ (exists r, resolve fs q = ResOk r /\ carve_ok cfg q r = true).
+    exists r, resolve fs q = ResOk r /\ carve_ok cfg q r = true.
 Proof.
-  intros W H q Hq Hs. apply cfg_wf_parts in W as (_ & W2 & _).
+  intros W H q Hq Hs. apply cfg_wf_parts in W as (_ & W2 & _ & _ & Wreq).
   pose proof (run_checks_all _ _ _ _ _ 2 H W2) as K. unfold run_check in K. cbn in K. unfold check_symlink in K.
   fold (abs_tail cwd s) in K.
   destruct (resolve fs (abs_tail cwd s)) as [r|] eqn:R; [|discriminate].
@@ -179,53 +176,65 @@ Proof.
   - unfold ppath_eqb in E. apply andb_true_iff in E as [_ E]. apply path_eqb_eq in E. cbn in E.
     fold (abs_tail cwd s) in E. subst r.
     rewrite (resolve_fixed_no_symlink fs _ R q Hq) in Hs. discriminate.
-  - exact (walk_sound cfg fs _ K q Hq Hs).
+  - exact (walk_sound cfg fs Wreq _ K q Hq Hs).
 Qed.
 
-(* the full statement of the property text (no carve-out, no exception) -- FALSE of the faithful model *)
+(* unconditional consequence: beyond the carve-out depth no component of an accepted path is a link at all *)
+Theorem accepted_no_symlink_beyond_depth cfg fs cwd s : cfg_wf cfg = true ->
+  validate_path cfg fs cwd s = VOk ->
+  forall q, In q (inits1 (abs_tail cwd s)) -> v_depth cfg < N.of_nat (length q) + 1 -> p_is_symlink fs q = false.
+Proof.
+  intros W H q Hq Hd. destruct (p_is_symlink fs q) eqn:Hs; [|reflexivity].
+  destruct (accepted_no_symlink cfg fs cwd s W H q Hq Hs) as (r & _ & C).
+  unfold carve_ok in C. apply andb_true_iff in C as [C _]. apply N.leb_le in C. lia.
+Qed.
+
+(* the full statement of the property text (no carve-out) -- FALSE of the faithful model *)
 Definition no_symlink_full (cfg : vcfg) : Prop :=
   forall fs cwd s, validate_path cfg fs cwd s = VOk ->
     forall q, In q (inits1 (abs_tail cwd s)) -> p_is_symlink fs q = false.
 
-(* restriction under explicit hypotheses *)
-Definition stattable (fs : node) (p : path) : Prop :=
-  forall q, In q (inits1 p) -> p_is_symlink fs q = true -> p_exists fs q <> ExFalse.
+(* restriction under the one remaining hypothesis: no component falls under the /private/ carve-out *)
 Definition no_carveout (cfg : vcfg) (fs : node) (p : path) : Prop :=
   forall q r, In q (inits1 p) -> resolve fs q = ResOk r -> carve_ok cfg q r = false.
 
 Theorem accepted_no_symlink_wf cfg fs cwd s : cfg_wf cfg = true ->
-  stattable fs (abs_tail cwd s) -> no_carveout cfg fs (abs_tail cwd s) ->
+  no_carveout cfg fs (abs_tail cwd s) ->
   validate_path cfg fs cwd s = VOk ->
   forall q, In q (inits1 (abs_tail cwd s)) -> p_is_symlink fs q = false.
 Proof.
-  intros W Hst Hnc H q Hq. destruct (p_is_symlink fs q) eqn:Hs; [|reflexivity].
-  destruct (accepted_no_symlink cfg fs cwd s W H q Hq Hs) as [E|(r & R & C)].
-  - exfalso. exact (Hst q Hq Hs E).
-  - rewrite (Hnc q r Hq R) in C. discriminate.
+  intros W Hnc H q Hq. destruct (p_is_symlink fs q) eqn:Hs; [|reflexivity].
+  destruct (accepted_no_symlink cfg fs cwd s W H q Hq Hs) as (r & R & C).
+  rewrite (Hnc q r Hq R) in C. discriminate.
 Qed.
 
-(* ---- witnesses ---- *)
+(* ---- witnesses (closed terms; the ones that depend on the generated link test being lstat-only are in
+        Path/PathPins.v) ---- *)
 Definition S (l : list N) : str := l.
 Definition w_sb : seg := [115;98].                              (* sb *)
 Definition w_out : seg := [111;117;116].                        (* out *)
 Definition w_dang : seg := [100;97;110;103;46;109;100].         (* dang.md *)
+Definition w_dangd : seg := [100;97;110;103;100].               (* dangd *)
+(* /sb/dang.md -> /out/new.md (absent), /sb/dangd -> /out/nodir (absent): dangling links as last component and as
+   directory component; /sb/nd.md -> f.md/x (stat: ENOTDIR) *)
 Definition w_fs_dangling : node :=
-  mk_fs [([w_sb], NDir []); ([w_out], NDir []);
-         ([w_sb; w_dang], NLink [47;111;117;116;47;110;101;119;46;109;100])].   (* /sb/dang.md -> /out/new.md (absent) *)
-Definition w_path_dangling : str := [47;115;98;47;100;97;110;103;46;109;100].   (* /sb/dang.md *)
+  mk_fs [([w_sb], NDir []); ([w_out], NDir []); ([w_sb; [102;46;109;100]], NFile [120]);
+         ([w_sb; w_dang], NLink [47;111;117;116;47;110;101;119;46;109;100]);
+         ([w_sb; w_dangd], NLink [47;111;117;116;47;110;111;100;105;114]);
+         ([w_sb; [110;100;46;109;100]], NLink [102;46;109;100;47;120])].
+Definition w_path_dangling : str := [47;115;98;47;100;97;110;103;46;109;100].                   (* /sb/dang.md *)
+Definition w_path_dangling_dir : str := [47;115;98;47;100;97;110;103;100;47;120;46;109;100].    (* /sb/dangd/x.md *)
+Definition w_path_enotdir : str := [47;115;98;47;110;100;46;109;100].                           (* /sb/nd.md *)
 
-Lemma dangling_accepted :
-  validate_write w_fs_dangling [] w_path_dangling = VOk /\ validate_fileops w_fs_dangling [] w_path_dangling = VOk /\
-  validate_validate w_fs_dangling [] w_path_dangling = VOk /\
-  p_is_symlink w_fs_dangling [w_sb; w_dang] = true /\ late_recheck w_fs_dangling [] w_path_dangling = false.
+(* the model keeps the pre-fix behaviour for a configuration whose link test requires exists(): this is the
+   defect that repo fix 039cc0c removed (kept as a statement about the OLD test, not about the source) *)
+Definition cfg_old_test (cfg : vcfg) : vcfg := mkcfg (v_kinds cfg) (v_allowed cfg) (v_depth cfg) (v_prefix cfg) true.
+Lemma old_test_accepts_dangling :
+  validate_path (cfg_old_test cfg_write) w_fs_dangling [] w_path_dangling = VOk /\
+  validate_path (cfg_old_test cfg_write) w_fs_dangling [] w_path_dangling_dir = VOk /\
+  p_is_symlink w_fs_dangling [w_sb; w_dang] = true /\ p_exists w_fs_dangling [w_sb; w_dang] = ExFalse /\
+  late_recheck_gen true w_fs_dangling [] w_path_dangling = ExFalse.
 Proof. vm_compute. repeat split; reflexivity. Qed.
-
-Theorem no_symlink_full_refuted_dangling : ~ no_symlink_full cfg_write.
-Proof.
-  intro F. pose proof (F w_fs_dangling [] w_path_dangling (proj1 dangling_accepted) [w_sb; w_dang]) as X.
-  assert (I1 : In [w_sb; w_dang] (inits1 (abs_tail [] w_path_dangling))) by (vm_compute; right; left; reflexivity).
-  specialize (X I1). vm_compute in X. discriminate.
-Qed.
 
 Definition w_private : seg := [112;114;105;118;97;116;101].     (* private *)
 Definition w_tmp : seg := [116;109;112].
@@ -245,7 +254,7 @@ Proof.
   specialize (X I1). vm_compute in X. discriminate.
 Qed.
 
-(* hypotheses of accepted_no_symlink_wf are satisfiable on a non-trivial value:
+(* the hypothesis of accepted_no_symlink_wf is satisfiable on a non-trivial value:
    /sb/lnkd -> /out is a live link; the path /sb/d/x.oct.md next to it is accepted *)
 Definition w_fs_live : node :=
   mk_fs [([w_sb], NDir []); ([w_out], NDir []); ([w_sb; [100]], NDir []);
@@ -257,15 +266,18 @@ Example wf_hypotheses_satisfiable :
   validate_write w_fs_live [] [47;115;98;47;108;110;107;100;47;120;46;109;100] = VRefuse RSymlink.
 Proof. vm_compute. repeat split; reflexivity. Qed.
 
-(* the late re-check adds nothing after an accepted validation, except for carve-out links *)
-Theorem late_recheck_only_carveout cfg fs cwd s : cfg_wf cfg = true ->
-  validate_path cfg fs cwd s = VOk -> late_recheck fs cwd s = true -> abs_tail cwd s <> [] ->
+(* once validation accepted, the late re-check -- whichever of the two link tests it uses -- can only fire on a
+   carve-out link *)
+Theorem late_recheck_only_carveout cfg b fs cwd s : cfg_wf cfg = true ->
+  validate_path cfg fs cwd s = VOk -> late_recheck_gen b fs cwd s = ExTrue -> abs_tail cwd s <> [] ->
   exists r, resolve fs (abs_tail cwd s) = ResOk r /\ carve_ok cfg (abs_tail cwd s) r = true.
 Proof.
-  intros W H L Hne. unfold late_recheck in L. destruct (p_exists fs (abs_tail cwd s)) eqn:E; try discriminate.
+  intros W H L Hne. unfold late_recheck_gen, link_test in L.
+  assert (Hs : p_is_symlink fs (abs_tail cwd s) = true).
+  { unfold p_is_symlink. destruct b; [destruct (p_exists fs (abs_tail cwd s)); try discriminate|]; rewrite L; reflexivity. }
   assert (Hin : In (abs_tail cwd s) (inits1 (abs_tail cwd s))).
   { pose proof (inits1_complete (abs_tail cwd s) [] Hne) as X. rewrite app_nil_r in X. exact X. }
-  destruct (accepted_no_symlink cfg fs cwd s W H _ Hin L) as [X|X]; [congruence|exact X].
+  exact (accepted_no_symlink cfg fs cwd s W H _ Hin Hs).
 Qed.
 
 (* ---- T4: refusal happens before any file-system operation of the entry point ---- *)
